@@ -1,14 +1,15 @@
-SPECIFICATION SeamSpec
+\* thorough: two calls, disconnects and network death, client-side Close only
+SPECIFICATION MCSpec
 CONSTANTS
-  Calls = {"k1"}
-  CCl = {"c1", "c2"}
-  SCl = {"s1"}
+  Calls = {"k1", "k2"}
+  CCl = {"c1"}
+  SCl = {}
   Stateless = FALSE
-  Timeout = FALSE
-  Sse = FALSE
+  Timeout = TRUE
+  Sse = TRUE
   Nested = FALSE
-  Faults = {"cut"}
-  DelModes = {"fail"}
+  Faults = {"cut", "net"}
+  DelModes = {}
   Helds = FALSE
   Notifs = FALSE
   Cancels = FALSE
